@@ -174,6 +174,31 @@ CHECKS = {
              "quick": B(2500, 25), "thorough": B(100000, 250, 100)},
         ],
     },
+    "C12": {
+        "level": "fault_enumeration",
+        "rule": "scripts = short valid histories (no refused operations) generated by seed for the doc, array, array+files, cal and "
+                "cal+store engines; each script is first run fault-free, counting the allocations made by libvna code (malloc, calloc, "
+                "realloc, strdup, vasprintf; allocations inside libyaml are tagged and excluded) in every fault-armed library call; then "
+                "the script is re-run from scratch once per allocation k with exactly that allocation failing. The failed call is "
+                "re-issued without the fault and the complete event log (every later observation, model comparison and final digest) "
+                "must equal the fault-free log. evaluations = faulted executions; non-trivial = executions in which the fault made the "
+                "call fail; exhaustive = every allocation index of every script was failed (scripts above the cap are sampled and counted)",
+        "assumptions": [
+            "exhaustive per script, not over scripts: scripts are a seeded sample",
+            "a call that fails under the fault and succeeds when re-issued must have reported ENOMEM; calls that fail anyway are not held to ENOMEM",
+            "allocation failures inside libyaml are out of this property's scope (C03 exercises them)",
+        ],
+        "expected_probes": ["failed_by_fault", "reissued_after_fault_ok"],
+        "subchecks": [
+            {"check": "C12.doc", "mode": "enum", "what": "property trees incl. YAML export / import", "quick": B(60, 25, 1), "thorough": B(3000, 250, 1)},
+            {"check": "C12.doc.insert", "mode": "enum", "what": "property trees with insert / append subscripts (known finding: not retry-safe)",
+             "quick": B(6, 10, 1), "thorough": B(200, 60, 1)},
+            {"check": "C12.array", "mode": "enum", "what": "vnadata objects incl. conversions", "quick": B(120, 20, 1), "thorough": B(5000, 200, 1)},
+            {"check": "C12.array.files", "mode": "enum", "what": "vnadata save / load", "quick": B(40, 25, 1), "thorough": B(2000, 250, 1)},
+            {"check": "C12.cal", "mode": "enum", "what": "parameters, sessions, solve, add_calibration, apply", "quick": B(40, 30, 1), "thorough": B(2000, 300, 1)},
+            {"check": "C12.cal.store", "mode": "enum", "what": "vnacal save / load incl. properties", "quick": B(20, 30, 1), "thorough": B(1000, 300, 1)},
+        ],
+    },
     "C14": {
         "level": "exploration",
         "rule": "trees built by seeded edit histories over a hard key/value alphabet, exported to the simulated disk, everything "
@@ -209,7 +234,6 @@ PLANNED = {
     "C03": "check under construction (chaos engine, DESIGN.md section 5); not claimed until it exists",
     "C09": "check under construction (corrupt engine); not claimed until it exists",
     "C11": "check under construction (failure-seeking workloads); not claimed until it exists",
-    "C12": "check under construction (allocation-failure enumeration driver); not claimed until it exists",
 }
 
 MANIFEST_TEXT = {
@@ -279,6 +303,14 @@ MANIFEST_TEXT = {
         "design_ref": "DESIGN.md section 5 C07",
         "level_note": "trusts VnaWorld (to obtain real calibrations), DocModel and the apply-based comparison of error terms",
         "technique": "deterministic simulation: simulated disk + restart + stream/allocation faults, model equality after reload",
+    },
+    "C12": {
+        "level_text": "exhaustive single-allocation-failure enumeration per script: every allocation libvna makes in a script is failed "
+                      "once and the outcome compared with the fault-free run; the scripts themselves are a seeded sample",
+        "design_ref": "DESIGN.md section 5 C12",
+        "level_note": "allocator seam = link-time --wrap with domain tagging; oracle = event-log equality with the fault-free run after "
+                      "re-issuing the failed call, ledger empty at the end, sanitizers",
+        "technique": "deterministic simulation: exhaustive allocation-fault enumeration with re-issue and event-log equality",
     },
     "C14": {
         "level_text": "seeded exploration of build/export/restart/import cycles over a hard key/value alphabet on a simulated disk with "
